@@ -100,7 +100,11 @@ func ceilTau(r gen.Rate) time.Duration {
 }
 
 func runProgram(t *rapid.T, httpLevel bool) {
-	rates := gen.Rates(t, !httpLevel, 5)
+	factor := int64(5) // the HTTP limiter's guarantee needs burst <= 5*average (entry lifetime)
+	if !httpLevel {
+		factor = 25
+	}
+	rates := gen.Rates(t, !httpLevel, factor)
 	rs, err := gen.RateSet(rates)
 	if err != nil {
 		t.Fatal(err)
